@@ -200,6 +200,8 @@ def clause_e(ctx, P, A):
 
 
 def run(ctx, P):
-    A, sc = clause_abc(ctx, P)
+    R = P      # (P.raw is the program as extracted; the numeric engine also runs on the normalised one)
+    R.repo = P.repo
+    A, sc = clause_abc(ctx, R)
     clause_d(ctx, P)
-    clause_e(ctx, P, A)
+    clause_e(ctx, R, A)
